@@ -105,13 +105,13 @@ func (m *refModel) admitsProbe(c cty.Value) bool {
 	switch m.kind {
 	case 'n':
 		if m.lo != nil {
-			cmp := numCmp(c, m.lo.v)
+			cmp := numCmpDoc(c, m.lo.v)
 			if cmp < 0 || (cmp == 0 && !m.lo.inc) {
 				return false
 			}
 		}
 		if m.hi != nil {
-			cmp := numCmp(c, m.hi.v)
+			cmp := numCmpDoc(c, m.hi.v)
 			if cmp > 0 || (cmp == 0 && !m.hi.inc) {
 				return false
 			}
@@ -142,7 +142,7 @@ func (m *refModel) empty() bool {
 	switch m.kind {
 	case 'n':
 		if m.lo != nil && m.hi != nil {
-			cmp := numCmp(m.lo.v, m.hi.v)
+			cmp := numCmpDoc(m.lo.v, m.hi.v)
 			if cmp > 0 || (cmp == 0 && !(m.lo.inc && m.hi.inc)) {
 				return true
 			}
@@ -187,7 +187,7 @@ func (m *refModel) addLo(v cty.Value, inc bool) {
 		m.lo = &nbound{v, inc}
 		return
 	}
-	cmp := numCmp(v, m.lo.v)
+	cmp := numCmpDoc(v, m.lo.v)
 	if cmp > 0 || (cmp == 0 && !inc) {
 		m.lo = &nbound{v, inc && (cmp != 0 || m.lo.inc)}
 	}
@@ -201,7 +201,7 @@ func (m *refModel) addHi(v cty.Value, inc bool) {
 		m.hi = &nbound{v, inc}
 		return
 	}
-	cmp := numCmp(v, m.hi.v)
+	cmp := numCmpDoc(v, m.hi.v)
 	if cmp < 0 || (cmp == 0 && !inc) {
 		m.hi = &nbound{v, inc && (cmp != 0 || m.hi.inc)}
 	}
@@ -233,7 +233,7 @@ func refOps() []refOp {
 						if c.IsNull() {
 							return true
 						}
-						cmp := numCmp(c, v)
+						cmp := numCmpDoc(c, v)
 						return cmp > 0 || (cmp == 0 && inc)
 					})
 				}})
@@ -245,7 +245,41 @@ func refOps() []refOp {
 						if c.IsNull() {
 							return true
 						}
-						cmp := numCmp(c, v)
+						cmp := numCmpDoc(c, v)
+						return cmp < 0 || (cmp == 0 && inc)
+					})
+				}})
+		}
+	}
+	// one number the library documents as equal to itself at two mantissa precisions
+	for _, pv := range []struct {
+		name string
+		v    cty.Value
+	}{{"0.1@53", cty.NumberFloatVal(0.1)}, {"0.1@512", parseNum("0.1")}} {
+		for _, inc := range []bool{true, false} {
+			pv, inc := pv, inc
+			v := pv.v
+			ops = append(ops, refOp{fmt.Sprintf("NumberRangeLowerBound(%s,%v)", pv.name, inc), "n",
+				func(b *cty.RefinementBuilder) { b.NumberRangeLowerBound(v, inc) },
+				func(m *refModel) bool {
+					m.addLo(v, inc)
+					return knownViolates(m, func(c cty.Value) bool {
+						if c.IsNull() {
+							return true
+						}
+						cmp := numCmpDoc(c, v)
+						return cmp > 0 || (cmp == 0 && inc)
+					})
+				}})
+			ops = append(ops, refOp{fmt.Sprintf("NumberRangeUpperBound(%s,%v)", pv.name, inc), "n",
+				func(b *cty.RefinementBuilder) { b.NumberRangeUpperBound(v, inc) },
+				func(m *refModel) bool {
+					m.addHi(v, inc)
+					return knownViolates(m, func(c cty.Value) bool {
+						if c.IsNull() {
+							return true
+						}
+						cmp := numCmpDoc(c, v)
 						return cmp < 0 || (cmp == 0 && inc)
 					})
 				}})
@@ -268,13 +302,13 @@ func refOps() []refOp {
 				func(b *cty.RefinementBuilder) { b.NumberRangeLowerBound(mk(), true) },
 				func(m *refModel) bool {
 					m.addLo(mk(), true)
-					return knownViolates(m, func(c cty.Value) bool { return c.IsNull() || numCmp(c, mk()) >= 0 })
+					return knownViolates(m, func(c cty.Value) bool { return c.IsNull() || numCmpDoc(c, mk()) >= 0 })
 				}})
 			ops = append(ops, refOp{fmt.Sprintf("NumberRangeUpperBound(%v[%s],true)", x, which), "n",
 				func(b *cty.RefinementBuilder) { b.NumberRangeUpperBound(mk(), true) },
 				func(m *refModel) bool {
 					m.addHi(mk(), true)
-					return knownViolates(m, func(c cty.Value) bool { return c.IsNull() || numCmp(c, mk()) <= 0 })
+					return knownViolates(m, func(c cty.Value) bool { return c.IsNull() || numCmpDoc(c, mk()) <= 0 })
 				}})
 		}
 	}
@@ -284,7 +318,7 @@ func refOps() []refOp {
 		m.addLo(cty.Zero, true)
 		m.addHi(cty.NumberIntVal(1), true)
 		return knownViolates(m, func(c cty.Value) bool {
-			return c.IsNull() || (numCmp(c, cty.Zero) >= 0 && numCmp(c, cty.NumberIntVal(1)) <= 0)
+			return c.IsNull() || (numCmpDoc(c, cty.Zero) >= 0 && numCmpDoc(c, cty.NumberIntVal(1)) <= 0)
 		})
 	}})
 	for _, n := range []int{-1, 0, 1, 2, 3} {
@@ -560,9 +594,10 @@ func (in *refInst) probes() []cty.Value {
 	switch in.m.kind {
 	case 'n':
 		var ps []cty.Value
-		for _, x := range []float64{math.Inf(-1), -2, -1, -0.5, 0, 0.5, 1, 1.5, 2, 3, math.Inf(1)} {
+		for _, x := range []float64{math.Inf(-1), -2, -1, -0.5, 0, 0.5, 1, 1.5, 2, 3, math.Inf(1), 0.1, 0.1000001, 0.0999999} {
 			ps = append(ps, cty.NumberFloatVal(x))
 		}
+		ps = append(ps, parseNum("0.1"))
 		return append(ps, cty.NullVal(ty))
 	case 's':
 		var ps []cty.Value
@@ -681,7 +716,7 @@ func (in *refInst) cmpBound(report func(site, shape, detail string), shape, opNa
 		}
 		return
 	}
-	if !got.IsKnown() || numCmp(got, want.v) != 0 || gotInc != want.inc {
+	if !got.IsKnown() || numCmpDoc(got, want.v) != 0 || gotInc != want.inc {
 		report("range-bound", shape, fmt.Sprintf("after %s: reported %s bound %s (inclusive=%v), stated constraints imply %s (inclusive=%v)", opName, which, goStr(got), gotInc, goStr(want.v), want.inc))
 	}
 }
